@@ -181,6 +181,11 @@ def pad(array: Array,
 
     processed_pad_widths = _normalize_pad_width(array, pad_width)
 
+    if any(width < 0
+           for before_after in processed_pad_widths
+           for width in before_after):
+        raise ValueError("pad widths cannot be negative")
+
     if mode == "constant":
 
         # {{{ normalize constant_values
